@@ -4,7 +4,7 @@
 From CV Require Import Value.ValueEq Value.ValueEqProofs Value.EqualM Value.Den Value.DenFacts Value.DenLists
                        Value.CanonSpec Value.CanonProofs Value.CanonProofs3 Value.CanonM Value.CanonMStruct
                        Value.CanonMWords Value.CanonMData Value.CanonMHeap Value.CanonMLoop Value.CanonSafe Value.EqualProofs
-                       Value.CanonMProofs Value.CanonMInd Value.CanonMListR Value.VDecProofs.
+                       Value.CanonMProofs Value.CanonMInd Value.CanonMBytes Value.CanonMListR Value.VDecProofs.
 From CV Require Import Core.ReaderFacts Core.SafetyProofs Core.BuilderFacts Core.ArithFacts Core.CopySafe.
 From Coq Require Import ZifyBool ZifyNat.
 Ltac Zify.zify_post_hook ::= Z.div_mod_to_equations.
